@@ -44,15 +44,38 @@ RoundAt(p, q, e) ==
            IN  <<IF up THEN B!AddMag(qr[1], <<1>>) ELSE qr[1], e>>
 RN53(p, q) == IF p = <<>> THEN <<<<>>, 0>> ELSE RoundAt(p, q, BitLen(p) - BitLen(q) - 53)
 
+(* Division by a power of two as repeated single-limb division (linear passes instead of long      *)
+(* division): <<floor(a / 2^k), "one of the k discarded bits was set">>                           *)
+RECURSIVE ShrS(_, _, _)
+ShrS(a, k, st) ==
+  IF k = 0 \/ a = <<>> THEN <<a, st>>
+  ELSE IF k >= 13 THEN LET qr == B!DivSmallMag(a, 8192) IN ShrS(qr[1], k - 13, st \/ qr[2] # 0)
+  ELSE LET qr == B!DivSmallMag(a, 2^k) IN <<qr[1], st \/ qr[2] # 0>>
+Shr(a, k) == ShrS(a, k, FALSE)
+
+(* RN53(p, 2^k), k >= 0, without long division.  The mantissa is not normalised when p has fewer   *)
+(* than 53 bits (the value p * 2^-k is then exact); MC_Dyadic checks it equal in value to RN53.    *)
+RN53P2(p, k) ==
+  IF p = <<>> THEN <<<<>>, 0>>
+  ELSE LET L == BitLen(p) IN
+         IF L <= 53 THEN <<p, -k>>
+         ELSE LET s  == L - 53
+                  h  == Shr(p, s - 1)               \* 54 bits and the sticky bit
+                  q  == B!DivSmallMag(h[1], 2)      \* <<53-bit quotient, half bit>>
+                  up == q[2] = 1 /\ (h[2] \/ q[1][1] % 2 = 1)
+              IN  <<IF up THEN B!AddMag(q[1], <<1>>) ELSE q[1], s - k>>
+
 (* truncation toward zero of mant * 2^e to an integer magnitude *)
-TruncMag(mant, e) == IF e >= 0 THEN B!MulMag(mant, B!Pow2Mag(e)) ELSE B!DivModMag(mant, B!Pow2Mag(-e))[1]
+TruncMag(mant, e) == IF e >= 0 THEN B!MulMag(mant, B!Pow2Mag(e)) ELSE Shr(mant, -e)[1]
+(* mant * 2^e is a whole number *)
+IsWholeMag(mant, e) == e >= 0 \/ ~Shr(mant, -e)[2]
 
 (* x * factor for a logged finite double x and an integer factor (magnitude): rounded to the    *)
 (* nearest double, then truncated toward zero to an integer; result as a signed BigInt          *)
 MulTrunc(x, factor) ==
   IF x.m = <<>> THEN B!Zero
-  ELSE LET r == IF x.e >= 0 THEN RN53(B!MulMag(B!MulMag(x.m, factor), B!Pow2Mag(x.e)), <<1>>)
-                ELSE RN53(B!MulMag(x.m, factor), B!Pow2Mag(-x.e))
+  ELSE LET r == IF x.e >= 0 THEN RN53P2(B!MulMag(B!MulMag(x.m, factor), B!Pow2Mag(x.e)), 0)
+                ELSE RN53P2(B!MulMag(x.m, factor), -x.e)
        IN  B!Mk(x.neg, TruncMag(r[1], r[2]))
 
 (* a decimal literal <<integer digits, fraction digits>> (sequences of 0..9) as the nearest double *)
